@@ -71,25 +71,37 @@ impl Flags {
 type CharIndices<'a> =
     core::iter::Chain<bstr::CharIndices<'a>, core::iter::Once<(usize, usize, char)>>;
 
+type ByteChars<'a> = core::iter::Peekable<core::iter::Enumerate<CharIndices<'a>>>;
+
 /// Mapping between byte and character indices.
-pub struct ByteChar<'a>(core::iter::Peekable<core::iter::Enumerate<CharIndices<'a>>>);
+pub struct ByteChar<'a>(&'a [u8], ByteChars<'a>);
 
 impl<'a> ByteChar<'a> {
     pub fn new(s: &'a [u8]) -> Self {
+        Self(s, Self::chars(s))
+    }
+
+    fn chars(s: &'a [u8]) -> ByteChars<'a> {
         let last = core::iter::once((s.len(), 0, '\0'));
-        Self(s.char_indices().chain(last).enumerate().peekable())
+        s.char_indices().chain(last).enumerate().peekable()
     }
 
     /// Convert byte offset to UTF-8 character offset.
     ///
-    /// This needs to be called with monotonically increasing values of `byte_offset`.
+    /// This is fastest when called with monotonically increasing values of `byte_offset`.
     fn char_of_byte(&mut self, byte_offset: usize) -> Option<usize> {
+        // a capture group may start before a previously handled one,
+        // e.g. in `"ba" | match("((a)|(b))*")`, so we may have to start over
+        let before = |(_char_i, (byte_i, ..)): &(usize, (usize, usize, char))| byte_offset < *byte_i;
+        if self.1.peek().map_or(true, before) {
+            self.1 = Self::chars(self.0);
+        }
         loop {
-            let (char_i, (byte_i, _, _char)) = self.0.peek()?;
+            let (char_i, (byte_i, _, _char)) = self.1.peek()?;
             if byte_offset == *byte_i {
                 return Some(*char_i);
             } else {
-                self.0.next();
+                self.1.next();
             }
         }
     }
